@@ -56,8 +56,12 @@ def gen_job(rng, nthreads, klass):
                                  "flags": O_CREATE | O_RDWR | rng.choice([0, O_TRUNC, O_APPEND]), "perm": 0o644})
                     open_h.append((hn, "w"))
                 continue
-            op = rng.choice(["mkdir", "mkdirall", "remove", "removeall", "rename", "chmod", "chown", "chtimes", "stat", "mkdir", "rename"])
-            if op == "mkdir":
+            op = rng.choice(["mkdir", "mkdirall", "remove", "removeall", "rename", "chmod", "chown", "chtimes", "stat", "mkdir", "rename", "createfile", "createfile"])
+            if op == "createfile":
+                # STFS.Create (looks its parent up before taking the lock) + Write + Close: on a name only this thread uses,
+                # so that the three calls cannot be separated by another thread's call on the same entry
+                prog.append({"op": "createfile", "name": rng.choice(["/q%d" % t, "/q%d-b" % t, "/p%d/c" % t]), "blob": rng.randrange(3)})
+            elif op == "mkdir":
                 prog.append({"op": "mkdir", "name": n, "perm": rng.choice([0o755, 0o700])})
             elif op == "mkdirall":
                 prog.append({"op": "mkdirall", "name": n + rng.choice(["", "/m", "/m/n"]), "perm": 0o755})
@@ -178,6 +182,44 @@ def check_linearizable(job, run, limit=120):
     return ("not-linearizable" if exhaustive else "inconclusive"), dict(tried=len(exts), exhaustive=exhaustive, closest=best)
 
 
+def storm_job(rng, nthreads, ncalls):
+    """Many clients creating entries with DISTINCT names below one directory (Create + Close, Mkdir): the calls commute, so the
+    expected result is known without a search: every call succeeds and every name is listed, live and after a rebuild."""
+    threads = []
+    for t in range(nthreads):
+        prog = []
+        for i in range(ncalls):
+            if t % 3 == 2:
+                prog.append({"op": "mkdir", "name": "/work/d%d-%d" % (t, i), "perm": 0o755})
+            else:
+                prog.append({"op": "createfile", "name": "/work/f%d-%d" % (t, i), "blob": rng.randrange(3)})
+        threads.append(prog)
+    return dict(config={"rs": rng.choice([3, 20]), "cache": rng.choice(["file", "memory"])}, blobs=[{"seed": 1, "len": 700}, {"seed": 2, "len": 10}, {"seed": 3, "len": 0}],
+                setup=[{"op": "initialize"}, {"op": "mkdir", "name": "/work", "perm": 0o755}], threads=threads, seed=rng.randrange(1 << 30), tmo=60000, obs=["tree", "rebuild"], klass="storm")
+
+
+def check_storm(job, run):
+    recs = run["recs"]
+    final = [r for r in recs if r.get("phase") == "final"]
+    conc = [r for r in recs if r.get("phase") == "conc"]
+    if any("PANIC" in (r.get("err") or "") for r in recs):
+        return "crash", [r for r in recs if "PANIC" in (r.get("err") or "")][:2]
+    if run["rc"] != 0 or not final or final[-1].get("hang"):
+        return "hang", [dict(thread=r["thread"], i=r["i"], op=r["op"]) for r in conc if r["out"] == "HANG"]
+    bad = [dict(thread=r["thread"], i=r["i"], op=r["op"], out=r["out"], err=(r.get("err") or "")[:160]) for r in conc if r["out"] != "ok"]
+    if bad:
+        return "commuting-call-failed", bad[:4]
+    obs = final[-1].get("obs") or {}
+    want = sorted(c["name"] for t in job["threads"] for c in t)
+    got = sorted(e["path"] for e in obs.get("tree") or [] if e["path"].startswith("/work/"))
+    if got != want:
+        return "entries-missing", [sorted(set(want) - set(got))[:5], sorted(set(got) - set(want))[:5]]
+    rb = obs.get("rebuild") or {}
+    if rb.get("err") or strip_tree(rb.get("tree")) != strip_tree(obs.get("tree")):
+        return "rebuild-differs", [rb.get("err")]
+    return "ok", dict(tried=0)
+
+
 def conc_stream(ctx):
     data, p = streams.cache_get(ctx, "conc")
     if data is not None:
@@ -192,6 +234,8 @@ def conc_stream(ctx):
         for i in range(n):
             nt = rng.choice([2, 2, 3, 3, 4, 5, 8]) if klass != "reads" else rng.choice([2, 3])
             jobs.append(gen_job(rng, nt, klass))
+    for i in range(3 if quick else 20):
+        jobs.append(storm_job(rng, rng.choice([4, 6, 8]), 12 if quick else 30))
     jobs = [j for j in streams.replay_override(ctx, "job", jobs) if "threads" in j]
     with ThreadPoolExecutor(max_workers=8) as ex:
         runs = list(ex.map(run_conc, jobs))
@@ -201,7 +245,7 @@ def conc_stream(ctx):
             runs[i] = run_conc(jobs[i])
     data = []
     for j, r in zip(jobs, runs):
-        st, detail = check_linearizable(j, r)
+        st, detail = check_storm(j, r) if j.get("klass") == "storm" else check_linearizable(j, r)
         data.append(dict(job=j, status=st, detail=detail, rc=r["rc"], ncalls=sum(len(t) for t in j["threads"]), recs=r["recs"] if st != "ok" else None))
     streams.cache_put(p, data)
     return data
